@@ -10,6 +10,7 @@ import TonVerif.Drv.Cell
 import TonVerif.Drv.Builder
 import TonVerif.Drv.BocParse
 import TonVerif.Drv.Proof
+import TonVerif.Drv.Message
 
 open TonVerif TonVerif.Drv
 
@@ -19,6 +20,7 @@ def handlers : List (String → List String → Option String) := [
   Builder.handle?,
   BocParse.handle?
   Proof.handle?
+  Msg.handle?
 ]
 
 def handle (op : String) (args : List String) : String :=
